@@ -49,6 +49,9 @@ func Do(p Params) *Result {
 
 	extErrs, parseFinishFn := handleExtensionsParseDidStart(&p)
 	if len(extErrs) != 0 {
+		// the request stops here, but the extensions whose parse phase did start
+		// are told that it is over
+		extErrs = append(extErrs, parseFinishFn(extErrs[0])...)
 		return &Result{
 			Errors: extErrs,
 		}
@@ -78,6 +81,8 @@ func Do(p Params) *Result {
 	// notify extensions about the start of the validation
 	extErrs, validationFinishFn := handleExtensionsValidationDidStart(&p)
 	if len(extErrs) != 0 {
+		// as above: finish the validation phase of the extensions that started it
+		extErrs = append(extErrs, validationFinishFn(extErrs)...)
 		return &Result{
 			Errors: extErrs,
 		}
